@@ -1,0 +1,115 @@
+//! Verification hooks (cargo feature `verif-hooks`, off by default).
+//!
+//! Nothing in this module is part of the library's API. With the feature disabled the
+//! module is not compiled and the `verif_failpoint!` / `verif_tick!` macros expand to
+//! nothing, so the library behaves exactly as without these hooks.
+//!
+//! * **Failpoints** (`fail`): a call site placed next to an existing error return asks
+//!   whether an externally armed failure should be injected there. All state is
+//!   thread-local so concurrently running monitors do not interfere.
+//! * **Ticks** (`tick`): per-site counters used as virtual time (bounded-work checks)
+//!   and as a record of which internal paths an operation reached.
+
+#![forbid(unsafe_code)]
+
+use std::cell::RefCell;
+use std::collections::BTreeMap;
+
+#[derive(Default)]
+struct State {
+    /// Armed failpoint: site name and how many more hits to let pass before firing.
+    armed: Option<(String, u64)>,
+    /// Number of times an armed failpoint actually fired.
+    fired: u64,
+    /// When `Some`, every failpoint site that is passed is appended (in order).
+    trace: Option<Vec<&'static str>>,
+    /// Per-site tick counters.
+    ticks: BTreeMap<&'static str, u64>,
+    /// Whether tick counting is enabled.
+    ticking: bool,
+}
+
+thread_local! {
+    static STATE: RefCell<State> = RefCell::new(State::default());
+}
+
+/// Called at a failpoint site; returns `true` when the armed failure must be injected here.
+#[must_use]
+pub fn fail(site: &'static str) -> bool {
+    STATE.with(|s| {
+        let mut s = s.borrow_mut();
+        if let Some(trace) = s.trace.as_mut() {
+            trace.push(site);
+        }
+        let fire = match s.armed.as_mut() {
+            Some((name, countdown)) if name == site => {
+                if *countdown == 0 {
+                    true
+                } else {
+                    *countdown -= 1;
+                    false
+                }
+            }
+            _ => false,
+        };
+        if fire {
+            s.armed = None;
+            s.fired += 1;
+        }
+        fire
+    })
+}
+
+/// Arms `site` so that its `(skip + 1)`-th hit from now on fires (once).
+pub fn arm(site: &str, skip: u64) {
+    STATE.with(|s| s.borrow_mut().armed = Some((site.to_owned(), skip)));
+}
+
+/// Disarms any armed failpoint; returns `true` if one was still armed (i.e. never reached).
+pub fn disarm() -> bool {
+    STATE.with(|s| s.borrow_mut().armed.take().is_some())
+}
+
+/// Number of failpoint firings on this thread so far.
+#[must_use]
+pub fn fired_count() -> u64 {
+    STATE.with(|s| s.borrow().fired)
+}
+
+/// Starts recording the sequence of failpoint sites passed on this thread.
+pub fn trace_start() {
+    STATE.with(|s| s.borrow_mut().trace = Some(Vec::new()));
+}
+
+/// Stops recording and returns the recorded site sequence.
+#[must_use]
+pub fn trace_take() -> Vec<&'static str> {
+    STATE.with(|s| s.borrow_mut().trace.take().unwrap_or_default())
+}
+
+/// Counts one unit of work at `site`.
+#[inline]
+pub fn tick(site: &'static str) {
+    STATE.with(|s| {
+        let mut s = s.borrow_mut();
+        if s.ticking {
+            *s.ticks.entry(site).or_insert(0) += 1;
+        }
+    });
+}
+
+/// Enables or disables tick counting on this thread.
+pub fn ticks_enable(on: bool) {
+    STATE.with(|s| s.borrow_mut().ticking = on);
+}
+
+/// Clears all tick counters on this thread.
+pub fn ticks_reset() {
+    STATE.with(|s| s.borrow_mut().ticks.clear());
+}
+
+/// Snapshot of the tick counters on this thread.
+#[must_use]
+pub fn ticks_snapshot() -> Vec<(&'static str, u64)> {
+    STATE.with(|s| s.borrow().ticks.iter().map(|(k, v)| (*k, *v)).collect())
+}
